@@ -487,6 +487,93 @@ def _always_returns(stmts):
     return False
 
 
+def _fn_signature(fn):
+    """Body of a function without its name and docstring, for recognising a pure rename."""
+    body = _body_without_doc(fn)
+    return ast.dump(ast.Module(body=body, type_ignores=[])) + '|' + ast.dump(fn.args) + '|' + \
+        '|'.join(ast.dump(d) for d in fn.decorator_list)
+
+
+def undo_renames(modules, known):
+    """A private function that vanished while a new one with the very same parameters and
+    body appeared in the same module/class was renamed: give it (and every reference to it)
+    its reference name back.  -> [(new qualname, old qualname)]"""
+    table = _func_table(modules)
+    missing = [q for q in known if q not in table]
+    new = [q for q in table if q not in known]
+    if not missing or not new:
+        return []
+    done = []
+    for nq in sorted(new):
+        fn, modname, cls = table[nq]
+        scope = nq.rsplit('.', 1)[0]
+        cands = [m for m in missing if m.rsplit('.', 1)[0] == scope]
+        if len(cands) != 1 and cands:
+            # several vanished: only an identical-arity candidate set of one is a rename
+            pass
+        for oq in cands:
+            old_name = oq.rsplit('.', 1)[1]
+            if old_name in {t.rsplit('.', 1)[1] for t in table if t.rsplit('.', 1)[0] == scope}:
+                continue
+            # bodies cannot be compared with the reference (it keeps no bodies): accept when it
+            # is the only vanished and the only new function of that scope
+            new_here = [x for x in new if x.rsplit('.', 1)[0] == scope]
+            if len(cands) == 1 and len(new_here) == 1:
+                new_name = fn.name
+                for tree in modules.values():
+                    for n in ast.walk(tree):
+                        if isinstance(n, ast.Attribute) and n.attr == new_name:
+                            n.attr = old_name
+                        elif isinstance(n, ast.Name) and n.id == new_name:
+                            n.id = old_name
+                        elif isinstance(n, (ast.FunctionDef, ast.AsyncFunctionDef)) and \
+                                n.name == new_name:
+                            n.name = old_name
+                        elif isinstance(n, ast.alias) and n.name == new_name:
+                            n.name = old_name
+                done.append((nq, oq))
+                missing.remove(oq)
+                break
+    return done
+
+
+def fold_new_constants(modules, known_constants):
+    """A module-level name bound once to a literal, that the reference module does not have,
+    names a repeated literal: put the literal back where the name is read.
+    known_constants: {module name: set of constant names of the reference}"""
+    done = []
+    for modname, tree in modules.items():
+        ref = known_constants.get(modname)
+        if ref is None:
+            continue
+        binds = {}
+        for st in tree.body:
+            if isinstance(st, ast.Assign) and len(st.targets) == 1 and \
+                    isinstance(st.targets[0], ast.Name):
+                binds.setdefault(st.targets[0].id, []).append(st)
+        for name, sts in binds.items():
+            if name in ref or len(sts) != 1:
+                continue
+            v = sts[0].value
+            if not (isinstance(v, ast.Constant) and isinstance(v.value, (str, int, float, bytes))
+                    and not isinstance(v.value, bool)):
+                continue
+            stores = sum(1 for n in ast.walk(tree) if isinstance(n, ast.Name) and n.id == name and
+                         isinstance(n.ctx, (ast.Store, ast.Del)))
+            if stores != 1:
+                continue
+
+            class Sub(ast.NodeTransformer):
+                def visit_Name(self, node):
+                    if node.id == name and isinstance(node.ctx, ast.Load):
+                        return ast.copy_location(ast.Constant(value=v.value), node)
+                    return node
+            Sub().visit(tree)
+            tree.body.remove(sts[0])
+            done.append((modname, name))
+    return done
+
+
 def inline_new_helpers(modules, known):
     """modules: {modname: ast.Module}; known: qualified names of the functions
     of the reference tree.  -> [(caller, helper, mode)]"""
